@@ -101,6 +101,7 @@ class Path(object):
         self.inconclusive = None
         self.realised = 0
         self.labels_reached = set()
+        self.soft = []           # deviations recorded without ending the path
 
     # -- solver plumbing ------------------------------------------------------
     def _check(self, *extra):
@@ -1066,6 +1067,9 @@ def run_path(fn, prefix, stats, want_model=False, seed=0, timeout_ms=20000):
         try:
             fn(p)
             res.status = "ok"
+            if p.soft:
+                res.status = "violation"
+                res.label, res.detail = p.soft[0]
         except Infeasible:
             res.status = "infeasible"
         except ViolationFound as v:
